@@ -219,8 +219,12 @@ def run(m: Model, r: Report, tier: str) -> None:
         okf_, _ = gp.must_pass(gp.entry, fl, rets_t, skip_edge=_skip) if fl and rets_t else (False, [])
         okc2, _ = gp.must_pass(gp.entry, cp, rets_t, skip_edge=_skip) if cp and rets_t else (False, [])
         r.check(okf_ and okc2, "R10", f"{pm.qualname}#filled-and-flushed", "the temporary file can be handed out without having been filled and flushed: trailing records are missing from the mapped view", loc=pm.loc)
-    mt_ = [n for n in ast.walk(pm.node) if isinstance(n, ast.Match)]
-    arms_ = {ast.unparse(c.pattern): ast.unparse(ast.Module(body=c.body, type_ignores=[])) for mt in mt_ for c in mt.cases}
+    from sa import dispatch as _dps
+    subj_s = sorted({ast.unparse(n.subject) for n in ast.walk(pm.node) if isinstance(n, ast.Match)} |
+                    {ast.unparse(c.left) for n in ast.walk(pm.node) if isinstance(n, ast.If) for c in ast.walk(n.test)
+                     if isinstance(c, ast.Compare) and isinstance(c.ops[0], ast.Eq) and isinstance(c.comparators[0], ast.Constant) and c.comparators[0].value in (".zst", ".gz")})
+    arms_s = _dps.arms(pm.node, subj_s[0]) if len(subj_s) == 1 else None
+    arms_ = {p_: ast.unparse(ast.Module(body=a_.body, type_ignores=[])) for a_ in (arms_s or []) for p_ in a_.patterns}
     r.check("zstandard" in arms_.get("'.zst'", "") and "gzip.open" in arms_.get("'.gz'", ""), "R10", f"{pm.qualname}#decompressor-by-suffix",
             f"suffix dispatch is {sorted(arms_)}: .zst must be read with zstandard, .gz with gzip", loc=pm.loc)
     psf = m.require_function(f"{LOG}.PenlogReader._parse_file_structure")
@@ -347,15 +351,26 @@ def run(m: Model, r: Report, tier: str) -> None:
     tl = m.require_function(f"{LOG}.PenlogPriority.to_level")
 
     def table(fn, subject: str) -> dict[str, str]:
-        mt = [n for n in walk_no_nested(fn.node) if isinstance(n, ast.Match) and ast.unparse(n.subject) == subject]
-        if len(mt) != 1:
-            raise AnalysisError(f"{fn.qualname}: match on {subject} not found")
+        """value -> result of a conversion function written as a match, an if-chain (sa/dispatch.py) or a lookup in a module-level dict literal."""
+        from sa import dispatch as _dp17
+        arms_t = _dp17.arms(fn.node, subject)
         out = {}
-        for c in mt[0].cases:
-            pat = ast.unparse(c.pattern)
-            ret = [ast.unparse(s.value) for s in c.body if isinstance(s, ast.Return)]
-            out[pat] = ret[0] if ret else ("raise" if any(isinstance(s, ast.Raise) for s in c.body) else "?")
-        return out
+        if arms_t is not None:
+            for a_ in arms_t:
+                ret = [ast.unparse(s.value) for s in a_.body if isinstance(s, ast.Return) and s.value is not None]
+                res = ret[0] if ret else ("raise" if any(isinstance(s, ast.Raise) for s in a_.body) else "?")
+                for p_ in (a_.patterns or ["_"]):
+                    out[p_] = res
+            return out
+        dicts = [fn.module.assigns[n.id] for n in ast.walk(fn.node) if isinstance(n, ast.Name) and isinstance(fn.module.assigns.get(n.id), ast.Dict)]
+        if len(dicts) == 1 and all(k is not None for k in dicts[0].keys):
+            cname = fn.cls.name if fn.cls is not None else ""
+            for k, v in zip(dicts[0].keys, dicts[0].values):
+                # inside the class `cls.X` / `self.X`-relative spellings: the table names members by their class
+                out[ast.unparse(k).replace(f"{cname}.", "self." if subject == "self" else f"{cname}.")] = ast.unparse(v).replace(f"{cname}.", "cls.")
+            out["_"] = "raise" if any(isinstance(x, ast.Raise) for x in ast.walk(fn.node)) else "?"
+            return out
+        raise AnalysisError(f"{fn.qualname}: conversion table on {subject} (match / if-chain / dict) not found")
     t_from, t_to = table(fl, "value"), table(tl, "self")
     for name in levels:
         r.check(t_from.get(f"Loglevel.{name}") == f"cls.{name}", "R2", f"{fl.qualname}#{name}",
